@@ -18,10 +18,25 @@ ROW_KINDS = ["NNN", "SSS", "SNN", "NNS"]
 COL_KINDS = ["NN:1", "SS:1", "SS:2", "SS:-1", "SS:-3", "NN:-1", "SN:2", "NS:-2"]
 
 
+def decode_selectors(case, n_rows):
+    """(numpy row selector, list-level row selection function, column slice or None) of a concrete case"""
+    rows = case["rows"]
+    if isinstance(rows, dict) and "index" in rows:
+        idx = [i for i in rows["index"] if -n_rows <= i < n_rows]
+        rsel, pick = np.array(idx, dtype=int), (lambda lst: [lst[i] for i in idx])
+    elif isinstance(rows, dict):
+        m = list(rows["mask"])[:n_rows] + [False] * max(0, n_rows - len(rows["mask"]))
+        rsel, pick = np.array(m, dtype=bool), (lambda lst: [x for x, keep in zip(lst, m) if keep])
+    else:
+        rsel, pick = slice(*rows), (lambda lst: lst[slice(*rows)])
+    cs = slice(*case["cols"]) if case.get("cols") is not None else None
+    return rsel, pick, cs
+
+
 def stub_flat_indices(ctx):
     """view.get_flat_indices() by contract, for whatever RaggedView2 it is called on: a fresh geometry with the view's row lengths and a gather
     index array with idx[S'(r) + c] = starts[r] + c * col_step; every flat position of the new geometry lies in one of its rows (lemma partition-point)"""
-    from npstructures.raggedshape import RaggedView2
+    from npstructures.raggedshape import RaggedView2, RaggedView
     calls = []
 
     def stub(self_, do_split=False):
@@ -29,7 +44,7 @@ def stub_flat_indices(ctx):
         starts, lengths = self_.starts, self_.lengths
         ss, ls = starts.snapshot(), lengths.snapshot()
         n = dim_term(starts.shape_[0])
-        step = I(self_.col_step)
+        step = I(self_.col_step) if isinstance(self_, RaggedView2) else z3.IntVal(1 if getattr(self_, "_step", None) is None else int(self_._step))
         out_shape = sym_shape(c, "flat")
         c.assume(out_shape.n == n)
         c.assume_forall("flat.L", lambda r: z3.Implies(z3.And(0 <= r, r < n), out_shape.L(r) == ls(r)))
@@ -40,9 +55,15 @@ def stub_flat_indices(ctx):
             0 <= rowof(j), rowof(j) < n, out_shape.S(rowof(j)) <= j, j < out_shape.S(rowof(j)) + out_shape.L(rowof(j)))))
         calls.append({"view": self_, "shape": out_shape, "idx": idx, "rowof": rowof, "starts": ss, "lengths": ls, "step": step, "n": n})
         return idx, out_shape.obj
-    old = RaggedView2.__dict__["get_flat_indices"]
+    old = (RaggedView2.__dict__["get_flat_indices"], RaggedView.__dict__["get_flat_indices"])
     RaggedView2.get_flat_indices = stub
-    return RaggedView2, old, calls
+    RaggedView.get_flat_indices = stub
+
+    class Restore:
+        """`cls.get_flat_indices = old` in the callers restores both classes"""
+        def __setattr__(self_, name, value):
+            RaggedView2.get_flat_indices, RaggedView.get_flat_indices = value
+    return Restore(), old, calls
 
 
 def selection_spec(ctx, g, rk, ck, nb=None, Lb=None):
@@ -50,13 +71,32 @@ def selection_spec(ctx, g, rk, ck, nb=None, Lb=None):
     selected receiver row of result row r', selected receiver column of its cell c'"""
     nb = g.n if nb is None else nb
     Lb = g.L if Lb is None else Lb
-    rcomps = slice_components(ctx, rk, names=("ra", "rb", "rc"))
+    if rk == "A":
+        # an integer index array (negative entries count from the end); requires: every entry names an existing row
+        q = z3.Int("q")
+        ctx.assume(q >= 0)
+        idx = SymArr.symbolic("rowidx", q, "int", np.int64, assume_len=False)
+        ctx.assume_forall("row indices exist", lambda i_: z3.Implies(z3.And(0 <= i_, i_ < q), z3.And(-nb <= idx.fn(i_), idx.fn(i_) < nb)))
+        rsel, nr = idx, q
+        src_row = lambda r_: z3.If(idx.fn(r_) < 0, idx.fn(r_) + nb, idx.fn(r_))
+    elif rk == "M":
+        from ..sym.arr import nonzero_facts
+        mk = SymArr.symbolic("rowmask", nb, "bool", bool, assume_len=False)
+        nz = nonzero_facts(mk, "rowsel")
+        rsel, nr = mk, nz.cnt
+        src_row = lambda r_: nz.pos(r_)
+    else:
+        rcomps = slice_components(ctx, rk, names=("ra", "rb", "rc"))
+        fr, nr, sr = (I(x) for x in pyslice(SInt(nb), *rcomps))
+        rsel = slice(*rcomps)
+        src_row = lambda r_: fr + r_ * sr
+    if ck == "-":
+        # no column selector: whole rows
+        return rsel, None, nr, src_row, (lambda r_: (z3.IntVal(0), Lb(src_row(r_)), z3.IntVal(1)))
     cse, cstep = ck.split(":")
     ccomps = slice_components(ctx, cse + "N", names=("ca", "cb", "cc"))[:2] + [int(cstep) if int(cstep) != 1 else None]
-    fr, nr, sr = (I(x) for x in pyslice(SInt(nb), *rcomps))
-    src_row = lambda r_: fr + r_ * sr
     col_parts = lambda r_: tuple(I(x) for x in pyslice(SInt(Lb(src_row(r_))), *ccomps))
-    return slice(*rcomps), slice(*ccomps), nr, src_row, col_parts
+    return rsel, slice(*ccomps), nr, src_row, col_parts
 
 
 @register
@@ -72,11 +112,12 @@ class GetItemEndToEnd(Family):
                "builtin slice rule = spec function pyslice (audited)", "numpy integer-array gather"]
 
     def kinds(self):
-        return [f"{r}|{c}" for r in ROW_KINDS for c in COL_KINDS]
+        return [f"{r}|{c}" for r in ROW_KINDS for c in COL_KINDS] + [f"{r}|{c}" for r in ("A", "M") for c in ("NN:1", "SS:1", "SS:-1", "NN:2", "-")] + \
+               [f"{r}|-" for r in ("SSS", "NNS")]
 
     def extra_functions(self):
-        return ["IndexableArray._get_row_subset", "IndexableArray._get_row_col_subset", "RaggedShape.view_rows", "RaggedView2.col_slice", "RaggedView2._pos_col_slice",
-                "RaggedView2._calculate_lengths", "RaggedBase.ravel", "RaggedBase._flatten_myself"]
+        return ["IndexableArray._get_row_subset", "IndexableArray._get_row_col_subset", "RaggedShape.view_rows", "RaggedShape.view", "RaggedView2.col_slice",
+                "RaggedView2._pos_col_slice", "RaggedView2._calculate_lengths", "RaggedBase.ravel", "RaggedBase._flatten_myself", "ViewBase._index_rows"]
 
     def receiver(self, ctx, g, kind):
         return g.ra, {}
@@ -109,8 +150,9 @@ class GetItemEndToEnd(Family):
         call = st["calls"][-1]
         w = ctx.ghost["forall_facts"][-1]["w"]
         osh = call["shape"]
-        r = call["rowof"](w)
-        c = w - osh.S(r)
+        # name the row / column of the failing flat position (plain constants keep the products with symbolic steps as easy as in the main proof)
+        r, c = z3.Int("late_r"), z3.Int("late_c")
+        ctx.assume(z3.And(r == call["rowof"](w), c == w - osh.S(r)))
         g = st["g"]
         ctx.prove_then_assume("late.lemma: the view has len(rows[rowslice]) rows", call["n"] == st["nr"], kind="lemma")
         ctx.prove_then_assume("late.lemma: the flat position of the failing address lies in a row of the view", z3.And(0 <= r, r < st["nr"], 0 <= c, c < osh.L(r)), pool=[w, r, r + 1], kind="lemma")
@@ -130,7 +172,7 @@ class GetItemEndToEnd(Family):
         st.update(extra_st)
         ctx.ghost["st"] = st
         try:
-            out = recv[rs, cs]
+            out = recv[rs, cs] if cs is not None else recv[rs]
             flat = out.ravel()
         finally:
             cls.get_flat_indices = old
@@ -162,11 +204,17 @@ class GetItemEndToEnd(Family):
             for ch, nm in zip(k, names):
                 out.append(None if ch == "N" else model_int(model, z3.Int(nm)))
             return out
-        rows = ms(rk, ("ra", "rb", "rc"))
-        if rows[2] == 0:
-            rows[2] = 1
-        cse, cstep = ck.split(":")
-        cols = ms(cse, ("ca", "cb")) + [int(cstep)]
+        if rk in ("A", "M"):
+            rows = {"A": {"index": [n - 1, 0, -1, 0][: (4 if n else 0)]}, "M": {"mask": [i % 2 == 0 for i in range(n)]}}[rk]
+        else:
+            rows = ms(rk, ("ra", "rb", "rc"))
+            if rows[2] == 0:
+                rows[2] = 1
+        if ck == "-":
+            cols = None
+        else:
+            cse, cstep = ck.split(":")
+            cols = ms(cse, ("ca", "cb")) + [int(cstep)]
         return {"lengths": [min(max(model_int(model, g.L(z3.IntVal(r))), 0), 4) for r in range(n)], "rows": rows, "cols": cols}
 
     def concrete(self, case):
@@ -177,12 +225,12 @@ class GetItemEndToEnd(Family):
             rows.append(list(range(v, v + l)))
             v += l
         ra = RaggedArray(np.arange(10, 10 + sum(ls)), ls)
-        rs, cs = slice(*case["rows"]), slice(*case["cols"])
+        rs, pick, cs = decode_selectors(case, len(ls))
         try:
-            got = ra[rs, cs].tolist()
+            got = (ra[rs, cs] if cs is not None else ra[rs]).tolist()
         except Exception as e:
             return {"msg": f"ra[{rs}, {cs}] on rows {rows} raised {type(e).__name__}: {e}", "sig": "raised:e2e-getitem"}
-        exp = [row[cs] for row in rows[rs]]
+        exp = [row[cs] if cs is not None else row for row in pick(rows)]
         if got != exp:
             return {"msg": f"ra[{rs}, {cs}] on rows {rows}: {got}, list indexing gives {exp}", "sig": "wrong:e2e-getitem"}
 
@@ -190,6 +238,10 @@ class GetItemEndToEnd(Family):
         for ls in ([3], [2, 0, 3], [0, 4], [1, 1, 1]):
             for rws in ([None, None, None], [1, None, None], [None, None, -1], [0, 5, 2]):
                 for cls_ in ([None, None, None], [1, None, None], [None, -1, None], [None, None, -1], [None, None, 2], [-2, None, None], [3, 0, -1]):
+                    yield {"lengths": ls, "rows": rws, "cols": cls_}
+            n_ = len(ls)
+            for rws in ({"index": [n_ - 1, 0, -1]}, {"index": []}, {"mask": [i % 2 == 1 for i in range(n_)]}, {"mask": [True] * n_}):
+                for cls_ in (None, [None, None, -1], [1, None, 2]):
                     yield {"lengths": ls, "rows": rws, "cols": cls_}
 
     def nontrivial(self, case):
@@ -202,7 +254,7 @@ class SetItemEndToEnd(GetItemEndToEnd):
     buffer keeps its old value (frame), the geometry is unchanged."""
     name = "ra[rows, cols] = v end to end"
     qualname = "npstructures.raggedarray.indexablearray:IndexableArray.__setitem__"
-    serves = ["C03", "C06"]
+    serves = ["C03"]
     configs = ["int64"]
     timeout_ms = 60000
     assumed = GetItemEndToEnd.assumed + ["numpy fancy assignment (witness form)"]
@@ -226,7 +278,10 @@ class SetItemEndToEnd(GetItemEndToEnd):
         ctx.ghost["st"] = st
         v = z3.Const("v", ElemSort)
         try:
-            g.ra[rs, cs] = SElem(v)
+            if cs is None:
+                g.ra[rs] = SElem(v)
+            else:
+                g.ra[rs, cs] = SElem(v)
         finally:
             cls.get_flat_indices = old
         if not calls:
@@ -272,14 +327,17 @@ class SetItemEndToEnd(GetItemEndToEnd):
             rows.append(list(range(v, v + l)))
             v += l
         ra = RaggedArray(np.arange(10, 10 + sum(ls)), ls)
-        rs, cs = slice(*case["rows"]), slice(*case["cols"])
+        rs, pick, cs = decode_selectors(case, len(ls))
         try:
-            ra[rs, cs] = -5
+            if cs is None:
+                ra[rs] = -5
+            else:
+                ra[rs, cs] = -5
         except Exception as e:
             return {"msg": f"ra[{rs}, {cs}] = -5 on rows {rows} raised {type(e).__name__}: {e}", "sig": "raised:e2e-setitem"}
         exp = [list(r) for r in rows]
-        for i in range(len(exp))[rs]:
-            for jx in range(len(exp[i]))[cs]:
+        for i in pick(list(range(len(exp)))):
+            for jx in (range(len(exp[i]))[cs] if cs is not None else range(len(exp[i]))):
                 exp[i][jx] = -5
         if ra.tolist() != exp:
             return {"msg": f"ra[{rs}, {cs}] = -5 on rows {rows}: {ra.tolist()}, list assignment gives {exp}", "sig": "wrong:e2e-setitem"}
@@ -327,7 +385,9 @@ class LazyGetItemEndToEnd(GetItemEndToEnd):
         for l in ls:
             rows.append(list(range(v, v + l)))
             v += l
-        rs, cs = slice(*case["rows"]), slice(*case["cols"])
+        rs, pick, cs = decode_selectors(case, len(ls))
+        if not isinstance(rs, slice) or cs is None:
+            return None
         for nm, mk, ml in (("ra[1::2]", lambda x: x[1::2], lambda x: x[1::2]), ("ra[::-1]", lambda x: x[::-1], lambda x: x[::-1]),
                            ("ra[:, 1:]", lambda x: x[:, 1:], lambda x: [r[1:] for r in x]), ("ra[:, ::-1]", lambda x: x[:, ::-1], lambda x: [r[::-1] for r in x])):
             ra = RaggedArray(np.arange(10, 10 + sum(ls)), ls)
@@ -338,3 +398,254 @@ class LazyGetItemEndToEnd(GetItemEndToEnd):
             exp = [row[cs] for row in ml(rows)[rs]]
             if got != exp:
                 return {"msg": f"{nm}[{rs}, {cs}] on rows {rows}: {got}, list indexing gives {exp}", "sig": "wrong:e2e-lazy-getitem"}
+
+
+@register
+class ScalarIndexEndToEnd(Family):
+    """The integer forms of indexing, end to end on a contiguous array, for indices that exist (the refusal of indices that do not exist is proved
+    in _get_element / col_slice[int] / _index_rows):  ra[i, j] is the cell (negative i, j count from the end);  ra[i] is row i as a 1-D array;
+    ra[i, a:b:-1] is row[a:b:-1];  ra[a::2, j] is [row[j] for row in rows[a::2]]."""
+    name = "integer indexing end to end"
+    qualname = "npstructures.raggedarray.indexablearray:IndexableArray.__getitem__"
+    serves = ["C02", "C06"]
+    configs = ["int64"]
+    timeout_ms = 60000
+    assumed = GetItemEndToEnd.assumed
+
+    def kinds(self):
+        return ["ra[i, j]", "ra[i]", "ra[i, a:b:-1]", "ra[i, a:b:2]", "ra[a::2, j]", "ra[::-1, j]"]
+
+    def extra_functions(self):
+        return ["IndexableArray._get_row_subset", "IndexableArray._get_row_col_subset", "IndexableArray._get_element", "IndexableArray._get_row",
+                "RaggedShape.view_rows", "RaggedShape.view", "RaggedView2.col_slice", "RaggedBase._get_data_range"]
+
+    def late_lemmas(self, ctx, kind, exc):
+        st = ctx.ghost.get("st")
+        if st is None or not isinstance(exc, IndexError):
+            return
+        g = st["g"]
+        ffs = ctx.ghost.get("forall_facts", [])
+        calls = st.get("calls") or []
+        pool = list(st.get("pool", []))
+        if ffs:
+            w = ffs[-1]["w"]
+            pool += [w, w + 1]
+            if calls:
+                call = calls[-1]
+                rr = call["rowof"](w)
+                pool += [rr, rr + 1, w - call["shape"].S(rr)] + st["row_pool"](rr)
+        ctx.prove_then_assume("late.lemma: no bounds check fails for indices that exist", z3.BoolVal(False), pool=pool + [g.n, z3.IntVal(0)], kind="lemma")
+
+    def run(self, ctx, kind):
+        g = sym_ragged(ctx)
+        n, S, L, D = g.n, g.S, g.L, g.D.fn
+        i, j = z3.Int("i"), z3.Int("j")
+        ctx.declare_inputs(i, j)
+        wrapn = lambda t, m: z3.If(t < 0, t + m, t)
+        cls, old, calls = stub_flat_indices(ctx)
+        st = {"g": g, "calls": calls, "pool": [], "row_pool": lambda r_: []}
+        ctx.ghost["st"] = st
+        ctx.ghost["g"] = g
+        try:
+            if kind in ("ra[i, j]", "ra[i]", "ra[i, a:b:-1]", "ra[i, a:b:2]"):
+                ctx.assume(z3.And(-n <= i, i < n))
+                row = wrapn(i, n)
+                st["pool"] = [row, row + 1, i, j]
+                if kind == "ra[i, j]":
+                    ctx.assume(z3.And(-L(row) <= j, j < L(row)))
+                    out = g.ra[SInt(i), SInt(j)]
+                    ctx.prove("post.ra[i, j] is cell j of row i (negative indices from the end)", out.t == D(S(row) + wrapn(j, L(row))), pool=[row, row + 1])
+                elif kind == "ra[i]":
+                    out = g.ra[SInt(i)]
+                    c = z3.Int("c")
+                    ctx.prove("post.ra[i] has the length of row i", dim_term(out.shape_[0]) == L(row), pool=[row, row + 1])
+                    ctx.skolem(z3.And(0 <= c, c < L(row)))
+                    ctx.prove("post.ra[i][c] is cell c of row i", out.get(c) == D(S(row) + c), pool=[row, row + 1, c])
+                else:
+                    stp = -1 if kind.endswith("-1]") else 2
+                    ca, cb = SInt(z3.Int("ca")), SInt(z3.Int("cb"))
+                    ctx.declare_inputs(ca, cb)
+                    out = g.ra[SInt(i), slice(ca, cb, stp)]
+                    fc, nc, sc = (I(x) for x in pyslice(SInt(L(row)), ca, cb, stp))
+                    c = z3.Int("c")
+                    ctx.prove("post.ra[i, a:b:s] has len(row[a:b:s]) elements", dim_term(out.shape_[0]) == nc, pool=[row, row + 1, z3.IntVal(0), z3.IntVal(1)])
+                    ctx.skolem(z3.And(0 <= c, c < nc))
+                    ctx.prove("post.ra[i, a:b:s][c] is row[a:b:s][c]", out.get(c) == D(S(row) + fc + c * sc), pool=[row, row + 1, c, z3.IntVal(0), z3.IntVal(1)])
+            else:
+                if kind == "ra[a::2, j]":
+                    a = z3.Int("pa")
+                    ctx.declare_inputs(a)
+                    sel = slice(SInt(a), None, 2)
+                    f, nr, stp = (I(x) for x in pyslice(SInt(n), SInt(a), None, 2))
+                else:
+                    sel = slice(None, None, -1)
+                    f, nr, stp = (I(x) for x in pyslice(SInt(n), None, None, -1))
+                src = lambda r_: f + r_ * stp
+                ctx.assume_forall("every selected row has column j", lambda r_: z3.Implies(z3.And(0 <= r_, r_ < nr), z3.And(-L(src(r_)) <= j, j < L(src(r_)))))
+                st["row_pool"] = lambda r_: [src(r_), src(r_) + 1]
+                out = g.ra[sel, SInt(j)]
+                call = calls[-1]
+                osh = call["shape"]
+                # every view row has length 1, so the flat position of view row r is r (prefix sums of ones: induction)
+                k = z3.Int("k")
+                ctx.prove("lemma.base: S'(0) == 0", osh.S(0) == 0, pool=[z3.IntVal(0)], kind="lemma")
+                ctx.prove("lemma.step: S'(k) == k => S'(k+1) == k+1 (one cell per selected row)", z3.Implies(z3.And(0 <= k, k < nr, osh.S(k) == k), osh.S(k + 1) == k + 1),
+                          pool=[k, k + 1, src(k), src(k) + 1], kind="lemma")
+                ctx.assume_forall("S'(k) == k (by induction)", lambda k_: z3.Implies(z3.And(0 <= k_, k_ <= nr), osh.S(k_) == k_))
+                ctx.prove("post.one element per selected row", dim_term(out.shape_[0]) == nr, pool=[nr, osh.n])
+                r = z3.Int("rp")
+                ctx.skolem(z3.And(0 <= r, r < nr))
+                rho = src(r)
+                ctx.prove("post.element r' is cell j of row rows[rowslice][r']", out.get(r) == D(S(rho) + wrapn(j, L(rho))), pool=[r, r + 1, rho, rho + 1, z3.IntVal(0)])
+        finally:
+            cls.get_flat_indices = old
+        ctx.prove("post.source not written", z3.BoolVal(g.D.buf.writes == 0))
+
+    def concrete(self, case):
+        from npstructures import RaggedArray
+        ls = case["lengths"]
+        rows, v = [], 10
+        for l in ls:
+            rows.append(list(range(v, v + l)))
+            v += l
+        ra = RaggedArray(np.arange(10, 10 + sum(ls)), ls)
+        n = len(ls)
+        for i in range(-n, n):
+            if np.asarray(ra[i]).tolist() != rows[i]:
+                return {"msg": f"ra[{i}] on rows {rows}: {np.asarray(ra[i]).tolist()}", "sig": "wrong:e2e-int-row"}
+            for j in range(-len(rows[i]), len(rows[i])):
+                if ra[i, j] != rows[i][j]:
+                    return {"msg": f"ra[{i}, {j}] on rows {rows}: {ra[i, j]}", "sig": "wrong:e2e-element"}
+            for sl in (slice(None, None, -1), slice(1, None, 2), slice(-1, 0, -1)):
+                if np.asarray(ra[i, sl]).tolist() != rows[i][sl]:
+                    return {"msg": f"ra[{i}, {sl}] on rows {rows}: {np.asarray(ra[i, sl]).tolist()}", "sig": "wrong:e2e-int-row-slice"}
+        m = min(ls) if ls else 0
+        for j in range(-m, m):
+            for sl in (slice(None, None, -1), slice(1, None, 2)):
+                if np.asarray(ra[sl, j]).tolist() != [r[j] for r in rows[sl]]:
+                    return {"msg": f"ra[{sl}, {j}] on rows {rows}: {np.asarray(ra[sl, j]).tolist()}", "sig": "wrong:e2e-int-col"}
+
+    def concretise(self, kind, model, ghost):
+        return {"lengths": [2, 3, 1]}
+
+    def bounded_cases(self, tier, seed):
+        for ls in ([3], [2, 1, 3], [1, 4], [2, 2, 2]):
+            yield {"lengths": ls}
+
+
+@register
+class ScalarAssignEndToEnd(Family):
+    """The integer forms of assignment with a scalar value, end to end, for indices that exist: ra[i, j] = v changes exactly that cell; ra[i] = v exactly
+    the cells of row i; ra[a::2, j] = v exactly cell j of every selected row; every other cell of the buffer keeps its value."""
+    name = "integer assignment end to end"
+    qualname = "npstructures.raggedarray.indexablearray:IndexableArray.__setitem__"
+    serves = ["C03"]
+    configs = ["int64"]
+    timeout_ms = 60000
+    assumed = SetItemEndToEnd.assumed
+
+    def kinds(self):
+        return ["ra[i, j] = v", "ra[i] = v", "ra[a::2, j] = v"]
+
+    def extra_functions(self):
+        return ["IndexableArray._get_row_subset", "IndexableArray._get_row_col_subset", "IndexableArray._get_element", "IndexableArray._get_row",
+                "RaggedShape.view_rows", "RaggedView2.col_slice", "RaggedBase._set_data_range"]
+
+    late_lemmas = ScalarIndexEndToEnd.late_lemmas
+
+    def run(self, ctx, kind):
+        from ..sym.arr import SElem, ElemSort
+        g = sym_ragged(ctx)
+        n, S, L = g.n, g.S, g.L
+        D0 = g.D.snapshot()
+        i, j = z3.Int("i"), z3.Int("j")
+        ctx.declare_inputs(i, j)
+        v = z3.Const("v", ElemSort)
+        wrapn = lambda t, m: z3.If(t < 0, t + m, t)
+        cls, old, calls = stub_flat_indices(ctx)
+        st = {"g": g, "calls": calls, "pool": [], "row_pool": lambda r_: []}
+        ctx.ghost["st"], ctx.ghost["g"] = st, g
+        r0, c0 = z3.Int("r0"), z3.Int("c0")
+        try:
+            if kind != "ra[a::2, j] = v":
+                ctx.assume(z3.And(-n <= i, i < n))
+                row = wrapn(i, n)
+                st["pool"] = [row, row + 1, i, j]
+                if kind == "ra[i, j] = v":
+                    ctx.assume(z3.And(-L(row) <= j, j < L(row)))
+                    g.ra[SInt(i), SInt(j)] = SElem(v)
+                    selected = lambda r_, c_: z3.And(r_ == row, c_ == wrapn(j, L(row)))
+                else:
+                    g.ra[SInt(i)] = SElem(v)
+                    selected = lambda r_, c_: r_ == row
+                D1 = g.D.snapshot()
+                ctx.skolem(z3.And(0 <= r0, r0 < n, 0 <= c0, c0 < L(r0)))
+                p = S(r0) + c0
+                ctx.prove("post.the addressed cells get the value, every other cell keeps its value", D1(p) == z3.If(selected(r0, c0), v, D0(p)),
+                          pool=[r0, r0 + 1, c0, row, row + 1, p])
+            else:
+                a = z3.Int("pa")
+                ctx.declare_inputs(a)
+                f, nr, stp = (I(x) for x in pyslice(SInt(n), SInt(a), None, 2))
+                src = lambda r_: f + r_ * stp
+                ctx.assume_forall("every selected row has column j", lambda r_: z3.Implies(z3.And(0 <= r_, r_ < nr), z3.And(-L(src(r_)) <= j, j < L(src(r_)))))
+                st["row_pool"] = lambda r_: [src(r_), src(r_) + 1]
+                g.ra[slice(SInt(a), None, 2), SInt(j)] = SElem(v)
+                D1 = g.D.snapshot()
+                call = calls[-1]
+                osh = call["shape"]
+                sc_ = ctx.ghost["scatters"][-1]
+                r = z3.Int("rp")
+                ctx.skolem(z3.And(0 <= r, r < nr))
+                rho = src(r)
+                t = osh.S(r)
+                ctx.prove("post.cell j of every selected row gets the value", D1(S(rho) + wrapn(j, L(rho))) == v, pool=[r, r + 1, rho, rho + 1, t, osh.n, nr, z3.IntVal(0)])
+                ctx.skolem(z3.And(0 <= r0, r0 < n, 0 <= c0, c0 < L(r0)))
+                p = S(r0) + c0
+                ctx.assume_forall("(r0, c0) is not selected", lambda r_: z3.Implies(z3.And(0 <= r_, r_ < nr), z3.Not(z3.And(src(r_) == r0, wrapn(j, L(src(r_))) == c0))))
+                w = sc_["wit"](p)
+                rw = call["rowof"](w)
+                ctx.prove("post.every other cell keeps its value", D1(p) == D0(p),
+                          pool=[r0, r0 + 1, c0, p, w, rw, rw + 1, w - osh.S(rw), src(rw), src(rw) + 1, n, nr, z3.IntVal(0)], live=[r0, c0])
+        finally:
+            cls.get_flat_indices = old
+        ctx.prove("post.geometry unchanged", z3.BoolVal(g.ra._shape is g.obj))
+
+    def concrete(self, case):
+        from npstructures import RaggedArray
+        ls = case["lengths"]
+        rows, v = [], 10
+        for l in ls:
+            rows.append(list(range(v, v + l)))
+            v += l
+        n = len(ls)
+
+        def fresh():
+            return RaggedArray(np.arange(10, 10 + sum(ls)), ls), [list(r) for r in rows]
+        for i in range(-n, n):
+            ra, exp = fresh()
+            ra[i] = -5
+            exp[i] = [-5] * len(exp[i])
+            if ra.tolist() != exp:
+                return {"msg": f"ra[{i}] = -5 on rows {rows}: {ra.tolist()}", "sig": "wrong:e2e-assign-row"}
+            for j in range(-len(rows[i]), len(rows[i])):
+                ra, exp = fresh()
+                ra[i, j] = -5
+                exp[i][j] = -5
+                if ra.tolist() != exp:
+                    return {"msg": f"ra[{i}, {j}] = -5 on rows {rows}: {ra.tolist()}", "sig": "wrong:e2e-assign-cell"}
+        m = min(ls) if ls else 0
+        for j in range(-m, m):
+            ra, exp = fresh()
+            ra[1::2, j] = -5
+            for r in exp[1::2]:
+                r[j] = -5
+            if ra.tolist() != exp:
+                return {"msg": f"ra[1::2, {j}] = -5 on rows {rows}: {ra.tolist()}", "sig": "wrong:e2e-assign-col"}
+
+    def concretise(self, kind, model, ghost):
+        return {"lengths": [2, 3, 1]}
+
+    def bounded_cases(self, tier, seed):
+        for ls in ([3], [2, 1, 3], [1, 4], [2, 2, 2]):
+            yield {"lengths": ls}
